@@ -196,4 +196,16 @@ def r6_optimizer(a, tier):
     return rep
 
 
-RULES = [r1_ebnf_vs_parser, r2_ebnf_vs_model, r3_config, r4_regeneration_literals, r5_regeneration_config, r6_optimizer]
+def r7_generated_primitives(a, tier):
+    """the shipped bootstrap parser is GENERATED code: it runs on the context managers only generated parsers use (option, group, ...),
+    whose cut scoping must be the model's, or the bootstrap and the model compiled from the grammar file part ways (= C05.R3)"""
+    from . import c05
+    rep = c05.r3_frame_classification(a, tier)
+    rep.rule = 'C15.R7'
+    for f in rep.findings:
+        f.rule = 'C15.R7'
+    rep.text = '[= C05.R3] ' + rep.text
+    return rep
+
+
+RULES = [r1_ebnf_vs_parser, r2_ebnf_vs_model, r3_config, r4_regeneration_literals, r5_regeneration_config, r6_optimizer, r7_generated_primitives]
